@@ -292,6 +292,11 @@ class Explorer:
         while True:
             if re.fullmatch(r"_\d+", t):
                 return t, list(reversed(steps))
+            mi = re.fullmatch(r"(.*)\[(_\d+)\]", t, re.S)
+            if mi:
+                steps.append(("index", mi.group(2)))
+                t = mi.group(1).strip()
+                continue
             if t.startswith("(*") and t.endswith(")"):
                 steps.append(("deref",))
                 t = t[2:-1].strip()
@@ -369,6 +374,10 @@ class Explorer:
                         v = Ref(("hv", next(_fresh)), ())
                 else:
                     v = Opaque("field of scalar")
+            elif s[0] == "index":
+                # an element of a slice/array at a (bounds-checked) symbolic index: an arbitrary value
+                v = Opaque("index")
+                cur_ty = "?"
             elif s[0] == "downcast":
                 pass
         return v
@@ -594,6 +603,15 @@ class Explorer:
         if m and m.group(1) == "Neg":
             v = self.coerce_bv(self.operand(st, frame, m.group(2)))
             return BV(-v.e, v.width, v.signed, v.taint)
+        m = re.fullmatch(r"(?:PtrMetadata|Len)\((?:copy |move )?(.*)\)", t)
+        if m:
+            v = self.read_place(st, frame, m.group(1)) if not m.group(1).startswith("(*") else self.read_place(st, frame, m.group(1)[2:-1])
+            if isinstance(v, Ref):
+                key = ("len", v.obj, v.path)
+                if key not in st.acc:
+                    st.acc[key] = fresh_of_type("usize", "len", False)
+                return st.acc[key]
+            return fresh_of_type("usize", "len", True)
         m = re.fullmatch(r"discriminant\((.*)\)", t)
         if m:
             v = self.read_place(st, frame, m.group(1))
@@ -707,6 +725,7 @@ class Explorer:
             f = fr.func
             fr.visits[block] = fr.visits.get(block, 0) + 1
             if fr.visits[block] > self.max_visits:
+                st.final_locals = dict(fr.locals)
                 self._finish(st, "cut:loop@" + f.name.split("::")[-1] + ":" + block)
                 return
             st.trail.append((f.name.split("::")[-1], block))
@@ -724,7 +743,7 @@ class Explorer:
                     dty = f.local_types.get(root) if not steps else (steps[-1][2] if steps[-1][0] == "field" else None)
                     v = self.rvalue(st, fr, m.group(2), dty)
                     if isinstance(v, Opaque) and dty and (dty in INT_TYPES or dty == "bool"):
-                        v = fresh_of_type(dty, "hv", True)
+                        v = fresh_of_type(dty, "elem" if v.why == "index" else "hv", v.why != "index")
                     self.write_place(st, fr, m.group(1), v)
                 except ValueError as e:
                     self.unknown_constructs.append(str(e)[:80])
